@@ -160,7 +160,14 @@ def body_stream(M, pmode, vmode, fdt):
         else:
             sup[nm] = SArr((M, 3), T, name=nm)
             kw[nm] = sup[nm]
-    ret = R.unpack_pack9(data, box, velz, float_dtype=T, **kw)
+    try:
+        ret = R.unpack_pack9(data, box, velz, float_dtype=T, **kw)
+    except core.ModelGap as ex:
+        if 'nan' not in str(ex):
+            raise
+        c.report('violation', 'a particle record was decoded with the header state still unset (NaN): the stream\'s first record, a header, '
+                 'was not treated as one', key='stream:headerless')
+        return
     # which records were headers on this path: decided by the code's own forks; read it back
     hdr = []
     for i in range(M):
@@ -168,7 +175,10 @@ def body_stream(M, pmode, vmode, fdt):
         hdr.append(r == 'unsat')
         if not hdr[-1]:
             r2, _ = c._check([ishdr[i]], core.FORK_TIMEOUT_MS)
-            assert r2 == 'unsat', 'header pattern not decided on this path'
+            if r2 != 'unsat':
+                c.report('violation', f'whether record {i} is a header is not decided by its first byte (0xFF) in the code', key='stream:header-test',
+                         cond=z3.BoolVal(True))
+                return
     npart = sum(1 for h in hdr if not h)
     c.extra['sample'] = dict(case, pattern=''.join('H' if h else 'p' for h in hdr))
     # oracle
@@ -246,7 +256,13 @@ def body_quantum():
     for i, f in enumerate((hf, pf)):
         for k, b in enumerate(encode(f)):
             data[i, k] = Sym(b, False)
-    pos, vel = R.unpack_pack9(data, box, velz, float_dtype=arrays.T('f8'))
+    try:
+        pos, vel = R.unpack_pack9(data, box, velz, float_dtype=arrays.T('f8'))
+    except core.ModelGap as ex:
+        if 'nan' not in str(ex):
+            raise
+        c.report('violation', 'a particle record was decoded with the header state still unset (NaN)', key='stream:headerless')
+        return
     F2 = [fields([common.cell(data, i, k).e for k in range(9)]) for i in range(2)]
     cpd = sshort(c, F2[0][1]) + 2000
     vs = sshort(c, F2[0][2]) + 2000
